@@ -168,6 +168,10 @@ def checkGridTuples (c : Case) : CaseResult := Id.run do
 def polyAns (poly : List Pt) (q : Pt) : Nat :=
   (if inPoly poly q true then 1 else 0) + (if inPoly poly q false then 2 else 0) + (if inPolyGen poly q then 4 else 0)
 
+/-- the generated loop kernel `Gen.Geometry.inPoly` on the same query (bits 1,2 only) -/
+def polyAnsG (poly : List Pt) (q : Pt) : Nat :=
+  (if AdaptaVerif.Gen.Geometry.inPoly poly q true then 1 else 0) + (if AdaptaVerif.Gen.Geometry.inPoly poly q false then 2 else 0)
+
 def checkGridPolys (c : Case) : CaseResult := Id.run do
   let side := nat! (((c.get1 "side").getD #["0"])[0]!)
   let i0 := nat! (((c.get1 "chunk").getD #["0"])[0]!)
@@ -184,6 +188,8 @@ def checkGridPolys (c : Case) : CaseResult := Id.run do
       for q in [0:n] do
         let m := polyAns poly (gridPt side q)
         if m % 2 == 1 then inside := inside + 1
+        if polyAnsG poly (gridPt side q) != m % 4 then
+          return { verdict := .diverge s!"inPoly triangle ({i0},{i1},{i2}) q={q}: generated kernel differs from model (translator)" }
         if tri[it]? != some (digit m) then
           return { verdict := .specfail s!"inPoly/inPolyGen triangle ({i0},{i1},{i2}) q={q} side={side}: impl {tri[it]?} exact {m} (bits: inPoly border, inPoly strict, inPolyGen)" }
         it := it + 1
@@ -236,6 +242,8 @@ def checkRandomPolys (c : Case) : CaseResult := Id.run do
       | some v =>
         let q : Pt := ⟨v[0]!, v[1]!⟩
         let m := polyAns poly q
+        if polyAnsG poly q != m % 4 then
+          return { verdict := .diverge s!"inPoly random polygon: generated kernel differs from model (translator)" }
         let impl := nat! l[3]! + 2 * nat! l[4]! + 4 * nat! l[5]!
         calls := calls + 3
         if m % 2 == 1 then inside := inside + 1
